@@ -285,7 +285,29 @@ def check_props_file(pid, vfile):
         # which theorem is broken: the first one at or after the error line, or the dependency file
         m = re.search(r'File "([^"]+)", line (\d+)', (o if rc != 0 else out))
         where = "%s:%s" % (m.group(1), m.group(2)) if m else "unknown location"
-        res["broken"] = [{"theorem": n, "reason": "proof script no longer checks (%s)" % where} for n in names] or \
+        if rc == 0 and m and os.path.basename(m.group(1)) == os.path.basename(vfile):
+            # the Props file itself stops at line L: the theorem containing L is broken, earlier ones were accepted
+            # (their Print Assumptions ran), later ones were not reached
+            L = int(m.group(2))
+            starts = []
+            for i, line in enumerate(open(vfile).read().split("\n"), 1):
+                mm = re.match(r"\s*(?:Theorem|Corollary)\s+([A-Za-z0-9_']+)", line)
+                if mm:
+                    starts.append((i, mm.group(1)))
+            cur = [n for (i, n) in starts if i <= L]
+            culprit = cur[-1] if cur else None
+            for (i, n) in starts:
+                if n == culprit:
+                    res["broken"].append({"theorem": n, "reason": "proof no longer checks (%s)" % where})
+                elif i > L:
+                    res["broken"].append({"theorem": n, "reason": "not reached: the file stops at %s" % where})
+            ok_names = [n for (i, n) in starts if i <= L and n != culprit]
+            closed = len(re.findall(r"Closed under the global context", out))
+            res["discharged"] = min(len(ok_names), closed)
+            if not res["broken"]:
+                res["broken"] = [{"theorem": pid, "reason": "Props file does not compile (%s)" % where}]
+            return res
+        res["broken"] = [{"theorem": n, "reason": "a lemma it depends on no longer checks (%s)" % where} for n in names] or \
             [{"theorem": pid, "reason": "Props file does not compile (%s)" % where}]
         return res
     # parse Print Assumptions blocks in order of appearance: one per 'Print Assumptions X.' command
